@@ -70,10 +70,6 @@ def hx(b):
     return "-" if not b else b.hex()
 
 
-def hxlist(t):
-    return t
-
-
 def nontrivial(tags, ops, impl):
     return any(tags.get(k, 0) > 0 for k in ("hostile-text-stored", "replaced-existing", "save-refused"))
 
@@ -269,7 +265,7 @@ def run(ctx):
     ctx.stage_prove(THEOREMS)
     if not ctx.stage_build():
         return
-    n = 400 if ctx.tier == "quick" else 8000
+    n = 400 if ctx.tier == "quick" else 2500
     ctx.correspond("notebook", n, nontrivial=nontrivial)
     with core.BuildLock():
         ok, out, wtf0 = core.build_wtf_binary()
@@ -278,7 +274,7 @@ def run(ctx):
             shutil.copy2(wtf0, wtf)
     ctx.oblige("build:wtf-binary", "build", ok, out)
     if ok:
-        cli_stream(ctx, wtf, 40 if ctx.tier == "quick" else 400)
+        cli_stream(ctx, wtf, 40 if ctx.tier == "quick" else 300)
     # the most readable counterexample first: a command line for the real binary
     rank = {"panic": 0, "success-but-unreadable-notebook": 1, "duplicate-command": 2, "neighbour-changed": 3, "saved-entry-differs": 4}
     ctx.hits.sort(key=lambda h: (0 if "argv" in h["replay"] or "commands" in h["replay"] else 1, rank.get(h["cls"], 6)))
